@@ -392,6 +392,8 @@ func (p *Prog) classifyState() []stateClass {
 					} else {
 						sc.Class, sc.Detail = "unclassified", "a setter of the field is called with something other than its saved value ("+bad+")"
 					}
+				} else if p.isBoundRestorerMethod(fn, f) {
+					sc.Class, sc.OK, sc.Detail = "restorer-method", true, "method of a restorer value: every method value of it is built with the field's saved value"
 				} else {
 					p.classifyNamed(fn, f, ss, entry, &sc)
 				}
@@ -511,6 +513,9 @@ func (p *Prog) classifyNamed(fn *ssa.Function, f *types.Var, ss []execStore, ent
 				if rs.Field == f && isSave(rs.Load) {
 					good = true
 				}
+			}
+			if !good && p.boundRestorer(fn, mc, f, isSave) {
+				good = true
 			}
 			if !good {
 				all = false
@@ -993,4 +998,141 @@ func (p *Prog) moduleCallees(c ssa.CallInstruction) []*ssa.Function {
 		}
 	}
 	return out
+}
+
+// boundRestorer: mc is a method value `r.restore` whose receiver r is a small
+// struct built in fn; the method stores one field of its receiver into the
+// Executor field f, and fn fills that field of r with a value saved from f.
+func (p *Prog) boundRestorer(fn *ssa.Function, mc *ssa.MakeClosure, f *types.Var, isSave func(*ssa.UnOp) bool) bool {
+	w, ok := mc.Fn.(*ssa.Function)
+	if !ok || len(mc.Bindings) != 1 || w.Synthetic == "" {
+		return false
+	}
+	// the method behind the bound wrapper
+	var m *ssa.Function
+	for _, b := range w.Blocks {
+		for _, ins := range b.Instrs {
+			if c, ok := ins.(ssa.CallInstruction); ok && c.Common().StaticCallee() != nil {
+				m = c.Common().StaticCallee()
+			}
+		}
+	}
+	if m == nil || m.Blocks == nil || len(m.Params) == 0 {
+		return false
+	}
+	recvP := m.Params[0]
+	// in m: exactly one store into the Executor field f, of a field of the receiver
+	k := -1
+	for _, st := range p.execStores(m) {
+		if st.Field != f || !p.wholeField(st.Store.Addr) || k >= 0 {
+			return false
+		}
+		k = receiverField(st.Store.Val, recvP)
+		if k < 0 {
+			return false
+		}
+	}
+	if k < 0 {
+		return false
+	}
+	// in fn: the receiver is a struct whose field k was given a saved value of f
+	var a *ssa.Alloc
+	switch x := mc.Bindings[0].(type) {
+	case *ssa.UnOp:
+		a, _ = x.X.(*ssa.Alloc)
+	case *ssa.Alloc:
+		a = x
+	}
+	if a == nil {
+		return false
+	}
+	for _, r := range *a.Referrers() {
+		fa, ok := r.(*ssa.FieldAddr)
+		if !ok || fa.Field != k {
+			continue
+		}
+		for _, r2 := range *fa.Referrers() {
+			if st, ok := r2.(*ssa.Store); ok && st.Addr == fa {
+				if l, lf := p.traceSaved(fn, st.Val, st, 0); l != nil && lf == f && isSave(l) {
+					return true
+				}
+			}
+		}
+	}
+	return false
+}
+
+// receiverField: v is the value of field #k of the (value or pointer)
+// receiver parameter q; returns k or -1.
+func receiverField(v ssa.Value, q *ssa.Parameter) int {
+	switch x := v.(type) {
+	case *ssa.Field:
+		if x.X == ssa.Value(q) {
+			return x.Field
+		}
+	case *ssa.UnOp:
+		if x.Op != token.MUL {
+			return -1
+		}
+		fa, ok := x.X.(*ssa.FieldAddr)
+		if !ok {
+			return -1
+		}
+		if fa.X == ssa.Value(q) {
+			return fa.Field // pointer receiver
+		}
+		// value receiver spilled into a local
+		if al, ok := fa.X.(*ssa.Alloc); ok {
+			for _, r := range *al.Referrers() {
+				if st, ok := r.(*ssa.Store); ok && st.Addr == al && st.Val == ssa.Value(q) {
+					return fa.Field
+				}
+			}
+		}
+	}
+	return -1
+}
+
+// isBoundRestorerMethod: every use of m in package exec is as a method value
+// accepted by boundRestorer for field f (and there is at least one).
+func (p *Prog) isBoundRestorerMethod(m *ssa.Function, f *types.Var) bool {
+	n := 0
+	for _, fn := range p.execFuncs() {
+		for _, b := range fn.Blocks {
+			for _, ins := range b.Instrs {
+				mc, ok := ins.(*ssa.MakeClosure)
+				if !ok {
+					continue
+				}
+				w, ok := mc.Fn.(*ssa.Function)
+				if !ok || w.Synthetic == "" {
+					continue
+				}
+				uses := false
+				for _, wb := range w.Blocks {
+					for _, wi := range wb.Instrs {
+						if c, ok := wi.(ssa.CallInstruction); ok && c.Common().StaticCallee() == m {
+							uses = true
+						}
+					}
+				}
+				if !uses {
+					continue
+				}
+				if !p.boundRestorer(fn, mc, f, func(*ssa.UnOp) bool { return true }) {
+					return false
+				}
+				n++
+			}
+		}
+	}
+	// direct calls of the method would bypass the check
+	if node := p.CG.Nodes[m]; node != nil {
+		for _, e := range node.In {
+			if e.Caller.Func.Synthetic == "" {
+				return false
+			}
+		}
+	}
+	return n > 0
 }
